@@ -278,7 +278,7 @@ func tracedPositions(b baseImage, r *hx.Rng) []int64 {
 		if err != nil {
 			return
 		}
-		st := &walkStats{}
+		st := &walkStats{began: time.Now()}
 		walk(fsys, ".", 0, st, 0, false) // listing only: file contents are not structural fields
 	}()
 	seen := map[int64]bool{}
@@ -536,9 +536,9 @@ func Run(c *hx.Ctx) {
 		}
 		if one := c.Args["patch"]; one != "" {
 			// replay of a single patch in-process: vh-damage base=<name> patch=<off>:<hex>[,<off>:<hex>]
-			// a hang dumps all goroutine stacks after 5 s
+			// a hang dumps all goroutine stacks after 30 s
 			go func() {
-				time.Sleep(5 * time.Second)
+				time.Sleep(30 * time.Second)
 				_ = pprof.Lookup("goroutine").WriteTo(os.Stderr, 2)
 				os.Exit(3)
 			}()
